@@ -57,8 +57,9 @@ def main():
             for f in demo:
                 shutil.copy(os.path.join(src, f), os.path.join(d, pkgdir, f))
         pat = "|".join(sorted(set(l.split("(")[0].split()[1] for f in demo for l in open(os.path.join(src, f)) if l.startswith("func Test"))))
-        rc_p, out_p = sh(["go", "test", "-count=1", "-run", pat or ".", "./" + pkgdir], patched)
-        rc_c, out_c = sh(["go", "test", "-count=1", "-run", pat or ".", "./" + pkgdir], clean)
+        race = ["-race"] if "-race" in json.dumps(meta) else []
+        rc_p, out_p = sh(["go", "test"] + race + ["-count=1", "-run", pat or ".", "./" + pkgdir], patched)
+        rc_c, out_c = sh(["go", "test"] + race + ["-count=1", "-run", pat or ".", "./" + pkgdir], clean)
         result["demo_fails_with_patch"], result["demo_passes_without"] = rc_p != 0, rc_c == 0
         result["ran"].append("go test -run '%s' ./%s: patched rc=%d, clean rc=%d" % (pat, pkgdir, rc_p, rc_c))
         if rc_c != 0:
